@@ -335,13 +335,56 @@ func c39Prop(c c39Case, r *vp.Rec) error {
 	return nil
 }
 
+// c39Known: key of the known finding whose predicate the case matches.
+//
+// c39-maxbuf-overrun-markup-decl: with SetMaxBuf(n), when the limit is hit inside
+// readDoctype/readCDATA (input "<!" + a prefix of "DOCTYPE" or "[CDATA["), the
+// tokenizer keeps calling readByte with z.err already set and returns a token whose
+// raw span is n+1 or n+2 bytes.
+func c39Known(c c39Case) string {
+	if c.MaxBuf < 5 {
+		return ""
+	}
+	low := bytes.ToLower(c.Input)
+	if !bytes.Contains(low, []byte("<!doc")) && !bytes.Contains(low, []byte("<![cd")) {
+		return ""
+	}
+	rd := &soupChunkReader{data: c.Input, sizes: c.Chunks, eofWithData: c.EOFWithData}
+	var z *Tokenizer
+	if c.Ctx != "" {
+		z = NewTokenizerFragment(rd, c.Ctx)
+	} else {
+		z = NewTokenizer(rd)
+	}
+	z.AllowCDATA(c.CDATA)
+	z.SetMaxBuf(c.MaxBuf)
+	for n := 0; n < len(c.Input)+8; n++ {
+		tt := z.Next()
+		raw := z.Raw()
+		if len(raw) > c.MaxBuf {
+			l := bytes.ToLower(raw)
+			if len(raw) <= c.MaxBuf+2 && (bytes.HasPrefix(l, []byte("<!doc")) || bytes.HasPrefix(l, []byte("<![cd"))) {
+				return "c39-maxbuf-overrun-markup-decl"
+			}
+			return ""
+		}
+		if tt == ErrorToken {
+			break
+		}
+		if c.NotRaw && tt == StartTagToken {
+			z.NextIsNotRawText()
+		}
+	}
+	return ""
+}
+
 func c39Sample(c c39Case) any {
 	return map[string]any{"input": fmt.Sprintf("%q", c.Input), "chunks": c.Chunks, "max_buf": c.MaxBuf, "cdata": c.CDATA, "ctx": c.Ctx,
 		"access": c.Access, "not_raw": c.NotRaw, "eof_with_data": c.EOFWithData}
 }
 
 func TestVP_C39(t *testing.T) {
-	vp.Run(t, vp.Spec[c39Case]{ID: "C39", Gen: c39Gen, Prop: c39Prop, Sample: c39Sample})
+	vp.Run(t, vp.Spec[c39Case]{ID: "C39", Gen: c39Gen, Prop: c39Prop, Known: c39Known, Sample: c39Sample})
 }
 
 func c39FuzzCase(data []byte, cfg uint32) c39Case {
